@@ -1572,7 +1572,11 @@ ElemNumber::toRoman(
     }
     else if (val > 3999)
     {
-        theResult = s_errorString;
+        // Roman numerals end at 3999 (MMMCMXCIX).  Like 0 above, a value
+        // that has no roman numeral is written in decimal.
+        theResult.clear();
+
+        NumberToDOMString(static_cast<XMLUInt64>(val), theResult);
     }
     else
     {
